@@ -420,6 +420,10 @@ def _check_domain_un(op, x):
 
 
 def _check_domain_bin(op, a, b):
+    if op in ("add", "sub", "floordiv", "mod", "pow", "truediv") and np.asarray(a).dtype == bool and np.asarray(b).dtype == bool:
+        # numpy defines + on two boolean arrays as logical or (and refuses -); the same Bint[2] values held as
+        # integers add to 2, so the result depends on the representation, not on the term
+        raise OutOfDomain("arithmetic on two boolean arrays")
     if op in ("truediv", "floordiv", "mod") and (np.asarray(b) == 0).any():
         raise OutOfDomain(op)
     if op == "logaddexp" and ((np.asarray(a, dtype=float) == np.inf).any() or (np.asarray(b, dtype=float) == np.inf).any()):
@@ -526,6 +530,8 @@ class Oracle:
                     self._check_maxmin_carrier(node[2], e2)
             if op in ("and", "or"):
                 vals = [np.asarray(v).astype(bool) for v in vals]
+            elif op in ("add", "mul") and any(np.asarray(v).dtype == bool for v in vals):
+                vals = [np.asarray(v).astype(np.int64) if np.asarray(v).dtype == bool else v for v in vals]  # np.sum / np.prod count
             elif op == "logaddexp":
                 if any((np.asarray(v, dtype=float) == np.inf).any() for v in vals):
                     raise OutOfDomain("logaddexp(+inf)")
@@ -606,11 +612,13 @@ class Oracle:
     def _check_maxmin_carrier(self, body, env):
         """(max, mul) and (min, mul) are semirings on non-negative data only: a product reachable from a
         max/min reduction through arithmetic must have non-negative operands at this point."""
-        muls = [n for n in walk(body) if n[0] == "bin" and n[1] in ("mul", "truediv", "pow")]
+        muls = [(n[2], n[3]) for n in walk(body) if n[0] == "bin" and n[1] in ("mul", "truediv", "pow")]
+        # Integrate(log_measure, integrand, vars) is sum exp(log_measure) * integrand: a product with the integrand
+        muls += [(n[2],) for n in walk(body) if n[0] == "integrate"]
         if not muls:
             return
-        for m in muls:
-            for operand in (m[2], m[3]):
+        for operands in muls:
+            for operand in operands:
                 try:
                     neg = (np.asarray(self.ev(operand, env), dtype=float) < 0).any()
                 except HarnessError:
